@@ -127,6 +127,7 @@ namespace pika::split_tuple_detail {
             void set_stopped() && noexcept
             {
                 auto r = std::move(*this);
+                r.state.v.template emplace<pika::execution::detail::stopped_type>();
                 r.state.set_predecessor_done();
             };
 
@@ -193,19 +194,20 @@ namespace pika::split_tuple_detail {
 
             void operator()(pika::execution::detail::stopped_type)
             {
-                constexpr bool sends_stopped =
 #if defined(PIKA_HAVE_STDEXEC)
-                    pika::execution::experimental::sends_stopped<Sender,
-                        pika::execution::experimental::empty_env>
-#else
-                    pika::execution::experimental::sender_traits<Sender>::sends_done
-#endif
-                    ;
+                constexpr bool sends_stopped = pika::execution::experimental::sends_stopped<Sender,
+                    pika::execution::experimental::empty_env>;
                 if constexpr (sends_stopped)
                 {
                     pika::execution::experimental::set_stopped(std::move(receiver));
                 }
                 else { PIKA_UNREACHABLE; }
+#else
+                // stopped_type is only stored when the predecessor did signal stopped.
+                // sends_done cannot rule that out: adaptors and type-erased senders declare
+                // sends_done = false but forward a stopped signal at run time.
+                pika::execution::experimental::set_stopped(std::move(receiver));
+#endif
             }
 
             void operator()(error_type const& error)
